@@ -8,7 +8,8 @@ Open Scope Z_scope.
 Inductive tcase :=
 | TOR (p g r out : Z)                 (* TimeOfRound(p s, g, r) = out *)
 | NR (now p g o1 o2 cur : Z)          (* NextRound(now,p,g) = (o1,o2); CurrentRound = cur *)
-| TK (p g t r : Z).                   (* the beacon ticker announced round r at time t *)
+| TK (p g t r : Z)                    (* the beacon ticker announced round r at time t *)
+| TK2 (p g a w t r : Z).              (* ... to a channel registered at start time a, when the clock read w *)
 
 Definition ok (c : tcase) : bool :=
   match c with
@@ -19,6 +20,8 @@ Definition ok (c : tcase) : bool :=
       let '(n, t) := next_round_f now p g in
       (n =? o1) && (t =? o2) && (current_round_f now p g =? cur)
   | TK p g t r => current_round_f t p g =? r
+  (* Model/Ticker.v: start <= stamp <= clock, round = current round of the stamp *)
+  | TK2 p g a w t r => (current_round_f t p g =? r) && (a <=? t) && (t <=? w)
   end.
 
 Definition mismatches (cs : list tcase) : list Z := mism_from ok 0 cs.
